@@ -127,3 +127,9 @@ package csv
 //@   requires f != nil
 //@   ensures result == f.headerContent
 //@   assigns nothing
+
+// Close calls the closer function stored in the File (a function value loaded from memory: outside the subset).
+// Its contract is assumed, the body is not verified.
+//@ func (*File).Close
+//@   trusted
+//@   requires f != nil
